@@ -35,6 +35,8 @@ EXTRA_THEOREM_MODULES = []
 CURVES = [12, 13, 14, 15, 23, 24]   # NIST_P256, BSI_P256, SECG_K256, SM2_P256, BN_P256, SM9_P256
 MSGLENS = [0, 1, 31, 32, 33, 55, 56, 63, 64, 65, 119, 120, 121, 127, 128, 129, 300]
 BITPOS = [0, 1, 7, 8, 31, 32, 63, 64, 65, 127, 128, 129, 191, 192, 193, 253, 254, 255]
+BITPOS_Q = [0, 1, 63, 64, 128, 254, 255]
+QUICK = [False]
 
 SRC = ("oracle.c", "ops_bn.c", "ops_fp.c", "ops_ep.c", "ops_md.c", "ops_cp.c")
 DEFS = ("ORACLE_FP", "ORACLE_EP", "ORACLE_MD", "ORACLE_EXTRA1=ops_cp")
@@ -479,6 +481,350 @@ def gen_rsa(ctx, exe, pad, scale):
     return lines
 
 
+
+# -------------------------------------------------------------------------------------------------------------------------
+# vBNN-IBS, proofs / signatures of knowledge, ring signatures
+
+def alter_int(rng, n, v, heavy):
+    """altered values of a scalar component: single-bit flips, range substitutions"""
+    subs = [0, 1, n - 1, n, v + n, v - n, -v, (n - v) % n, (v + 1) % n, v + 2 * n, (1 << 256) + v]
+    if heavy:
+        return [v ^ (1 << b) for b in (BITPOS if QUICK[0] is False else BITPOS_Q)] + subs
+    return [v ^ (1 << rng.choice(BITPOS)), rng.choice(subs), rng.choice(subs)]
+
+
+def alter_pt(rng, cv, P, heavy, pool):
+    p = cv.p
+    l = [None, (P[0], (p - P[1]) % p), (P[0], (P[1] + 1) % p), ((P[0] + 1) % p, P[1]), (0, 0), cv.add(P, P), cv.add(P, cv.g), rng.choice(pool)]
+    return l if heavy else [rng.choice(l), rng.choice(l)]
+
+
+def rnd_scalar(rng, n):
+    return rng.bits(320) % (n - 1) + 1
+
+
+def gen_vbnn(ctx, exe, cid, cv, scale, pool, lvl=2):
+    rng, n = ctx.rng, cv.n
+    pre = ["ep_param %d" % cid]
+    lines = []
+    gl = ["vbnn_gen %s" % seedhex(rng)]
+    go = ask(exe, pre, gl)
+    lines += gl
+    k = kv(go[0])
+    if "d" not in k:
+        return lines
+    msk, mpk = int(k["d"], 16), parse_pt(k["q"])
+    ids = [b"", b"a", rng.bytes(16), rng.bytes(65)]
+    if lvl < 2:
+        ids = [rng.choice(ids[:2]), rng.choice(ids[2:])]
+    pl = ["vbnn_gen_prv %s %x %s" % (seedhex(rng), msk, bx(i)) for i in ids]
+    po = ask(exe, pre, pl)
+    lines += pl
+    users = []
+    for i, o in zip(ids, po):
+        k = kv(o)
+        if "sk" in k:
+            users.append((i, int(k["sk"], 16), parse_pt(k["pk"])))
+    lens = [0, 1, 32, 56, 64, 300] if ctx.tier == "quick" else MSGLENS
+    sl, meta = [], []
+    for ui, (i, sk, R) in enumerate(users):
+        for ln in (lens if ui == 0 and lvl == 2 else [rng.choice(lens[:3]), rng.choice(lens[3:])]):
+            m = message(rng, ln)
+            sl.append("vbnn_sig %s %s %s %x %s" % (seedhex(rng), bx(i), bx(m), sk, pt(R)))
+            meta.append((i, m, R))
+    so = ask(exe, pre, sl)
+    lines += sl
+    cnt = 0
+    for (i, m, R), o in zip(meta, so):
+        k = kv(o)
+        if "z" not in k:
+            continue
+        z, h = int(k["z"], 16), int(k["h"], 16)
+        heavy = cnt < scale and lvl == 2
+        cnt += 1
+
+        def V(R_=R, z_=z, h_=h, i_=i, m_=m, K_=mpk):
+            lines.append("vbnn_ver %s %s %s %s %s %s" % (pt(R_), hx(z_), hx(h_), bx(i_), bx(m_), pt(K_)))
+        V()
+        for v in alter_int(rng, n, z, heavy):
+            V(z_=v)
+        for v in alter_int(rng, n, h, heavy):
+            V(h_=v)
+        for P in alter_pt(rng, cv, R, heavy, pool):
+            if P is not None:
+                V(R_=P)
+        # R = O: the verifier's buffer is sized from ec_size_bin(R) (finding C05-10); with a long message the overrun stays inside the frame,
+        # one line per run uses an empty identity and message
+        if cnt == 1:
+            V(R_=None, i_=b"identity", m_=m + rng.bytes(150))
+            if lvl == 2:
+                V(R_=None, i_=b"", m_=b"")
+        for P in alter_pt(rng, cv, mpk, heavy, pool):
+            V(K_=P)
+        for mm in mutate_msg(rng, m)[:(7 if heavy else 2)]:
+            V(m_=mm)
+        for ii in mutate_msg(rng, i)[:(4 if heavy else 1)]:
+            V(i_=ii)
+        V(i_=m, m_=i)
+        V(z_=h, h_=z)
+    return lines
+
+
+def gen_sok(ctx, exe, cid, cv, scale, pool, lvl=2):
+    rng, n = ctx.rng, cv.n
+    pre = ["ep_param %d" % cid]
+    lines = []
+    lens = [0, 1, 32, 64, 119, 300] if ctx.tier == "quick" else MSGLENS
+    if lvl < 2:
+        lens = [rng.choice(lens[:3]), rng.choice(lens[3:])]
+    reps = scale if ctx.tier == "quick" else 3 * scale
+    pl, meta = [], []
+    for _ in range(reps):
+        x = rnd_scalar(rng, n)
+        y = cv.mul(cv.g, x)
+        y0 = cv.mul(cv.g, rnd_scalar(rng, n))
+        pl.append("pokdl_prv %s %s %x" % (seedhex(rng), pt(y), x))
+        meta.append(("pokdl", b"", y, None, None, None))
+        pl.append("pokor_prv %s %s %s %x" % (seedhex(rng), pt(y0), pt(y), x))
+        meta.append(("pokor", b"", y0, y, None, None))
+        for ln in lens:
+            m = message(rng, ln)
+            pl.append("sokdl_sig %s %s %s %x" % (seedhex(rng), bx(m), pt(y), x))
+            meta.append(("sokdl", m, y, None, None, None))
+        for ln in (lens[:3] + [rng.choice(lens)] if lvl == 2 else [rng.choice(lens)]):
+            m = message(rng, ln)
+            for first in (0, 1):
+                if lvl == 2 or first == 0:
+                    f1 = first if lvl == 2 else rng.below(2)
+                    ys = (y0, y) if f1 == 0 else (y, y0)
+                    pl.append("sokor_sig %s %s %s %s - - %x %d" % (seedhex(rng), bx(m), pt(ys[0]), pt(ys[1]), x, f1))
+                    meta.append(("sokor", m, ys[0], ys[1], None, None))
+                if lvl == 2 or first == 1:
+                    # own generators: y_i = x g_i for the known branch
+                    f1 = first if lvl == 2 else rng.below(2)
+                    g0, g1 = cv.mul(cv.g, rnd_scalar(rng, n)), cv.mul(cv.g, rnd_scalar(rng, n))
+                    ys = (y0, cv.mul(g1, x)) if f1 == 0 else (cv.mul(g0, x), y0)
+                    pl.append("sokor_sig %s %s %s %s %s %s %x %d" % (seedhex(rng), bx(m), pt(ys[0]), pt(ys[1]), pt(g0), pt(g1), x, f1))
+                    meta.append(("sokor", m, ys[0], ys[1], g0, g1))
+    po = ask(exe, pre, pl)
+    lines += pl
+    cnt = {}
+    for (sch, m, ya, yb, g0, g1), o in zip(meta, po):
+        k = kv(o)
+        heavy = cnt.get(sch, 0) < scale and lvl == 2
+        cnt[sch] = cnt.get(sch, 0) + 1
+        if sch in ("pokdl", "sokdl"):
+            if "c" not in k:
+                continue
+            c, r = int(k["c"], 16), int(k["r"], 16)
+
+            def V(c_=c, r_=r, m_=m, y_=ya):
+                if sch == "pokdl":
+                    lines.append("pokdl_ver %s %s %s" % (hx(c_), hx(r_), pt(y_)))
+                else:
+                    lines.append("sokdl_ver %s %s %s %s" % (hx(c_), hx(r_), bx(m_), pt(y_)))
+            V()
+            for v in alter_int(rng, n, c, heavy):
+                V(c_=v)
+            for v in alter_int(rng, n, r, heavy):
+                V(r_=v)
+            for P in alter_pt(rng, cv, ya, heavy, pool):
+                V(y_=P)
+            V(c_=r, r_=c)
+            if sch == "sokdl":
+                for mm in mutate_msg(rng, m)[:(7 if heavy else 2)]:
+                    V(m_=mm)
+        else:
+            if "c0" not in k:
+                continue
+            c0, c1, r0, r1 = (int(k[t], 16) for t in ("c0", "c1", "r0", "r1"))
+
+            def W(c0_=c0, c1_=c1, r0_=r0, r1_=r1, m_=m, y0_=ya, y1_=yb, g0_=g0, g1_=g1):
+                if sch == "pokor":
+                    lines.append("pokor_ver %s %s %s %s %s %s" % (hx(c0_), hx(c1_), hx(r0_), hx(r1_), pt(y0_), pt(y1_)))
+                else:
+                    lines.append("sokor_ver %s %s %s %s %s %s %s %s %s" % (hx(c0_), hx(c1_), hx(r0_), hx(r1_), bx(m_), pt(y0_), pt(y1_),
+                                                                     "-" if g0_ is None else pt(g0_), "-" if g1_ is None else pt(g1_)))
+            W()
+            few = None if lvl == 2 else 1
+            for v in alter_int(rng, n, c0, heavy):
+                W(c0_=v)
+            for v in alter_int(rng, n, c1, heavy and sch == "pokor")[:few]:
+                W(c1_=v)
+            for v in alter_int(rng, n, r0, False)[:few]:
+                W(r0_=v)
+            for v in alter_int(rng, n, r1, heavy and sch == "sokor")[:few]:
+                W(r1_=v)
+            # the two challenges only enter through their sum: (c0 + 1, c1 - 1) changes the commitments, (c0 + n, c1) does not
+            W(c0_=(c0 + 1) % n, c1_=(c1 - 1) % n)
+            W(c0_=c1, c1_=c0)
+            W(c0_=c1, c1_=c0, r0_=r1, r1_=r0, y0_=yb, y1_=ya, g0_=g1, g1_=g0)      # the whole statement swapped: valid
+            for P in alter_pt(rng, cv, ya, heavy, pool)[:(None if lvl == 2 else 1)]:
+                W(y0_=P)
+            for P in alter_pt(rng, cv, yb, False, pool)[:few]:
+                W(y1_=P)
+            if g0 is not None:
+                for P in alter_pt(rng, cv, g0, False, pool)[:few]:
+                    W(g0_=P)
+                W(g0_=None, g1_=None)
+            if sch == "sokor":
+                for mm in mutate_msg(rng, m)[:(7 if heavy else 2)]:
+                    W(m_=mm)
+    return lines
+
+
+def ring_tokens(elts):
+    return " ".join(" ".join([pt(e[0]), pt(e[1])] + [hx(v) for v in e[2:6]] + ([pt(e[6])] + [hx(v) for v in e[7:11]] if len(e) > 6 else [])) for e in elts)
+
+
+def parse_ring(toks, k, link=False):
+    w = 11 if link else 6
+    out = []
+    for i in range(k):
+        t = toks[w * i: w * i + w]
+        e = [parse_pt(t[0]), parse_pt(t[1])] + [int(x, 16) for x in t[2:6]]
+        if link:
+            e += [parse_pt(t[6])] + [int(x, 16) for x in t[7:11]]
+        out.append(e)
+    return out, toks[w * k:]
+
+
+def gen_ers(ctx, exe, cid, cv, scale, pool, link=False, lvl=2):
+    """extendable ring signatures (cp_ers_*) and the same-message linkable variant (cp_smlers_*)"""
+    rng, n = ctx.rng, cv.n
+    pre = ["ep_param %d" % cid]
+    op = "smlers" if link else "ers"
+    lines = [] if link else ["ers_gen %s" % seedhex(rng)]
+    sizes = ([1, 3] if link else [1, 2, 4]) if ctx.tier == "quick" else ([1, 2, 3, 4] if link else [1, 2, 3, 4, 5, 6])
+    if lvl < 2:
+        sizes = [rng.choice([1, 2]) if link else rng.choice([1, 2, 3])]
+    rl, meta = [], []
+    for k in sizes * scale:
+        m = message(rng, rng.choice([0, 1, 32, 64, 120, 300]))
+        rl.append("%s_run %s %s %d" % (op, seedhex(rng), bx(m), k))
+        meta.append((m, k))
+    ro = ask(exe, pre, rl)
+    lines += rl
+    for idx, ((m, k), o) in enumerate(zip(meta, ro)):
+        t = o.split()
+        if len(t) < 4 or not t[0].startswith("pp="):
+            continue
+        pp = parse_pt(t[0][3:])
+        off = 2 if link else 1
+        td = int(t[off][3:], 16)
+        ring, _ = parse_ring(t[off + 2:], k, link)
+        heavy = idx < 2 * scale and lvl == 2
+
+        def V(td_=td, m_=m, pp_=pp, ring_=ring):
+            lines.append("%s_ver %s %s %s %d %s" % (op, hx(td_), bx(m_), pt(pp_), len(ring_), ring_tokens(ring_)))
+        V()
+        for v in alter_int(rng, n, td, heavy):
+            V(td_=v)
+        for mm in mutate_msg(rng, m)[:(5 if heavy else (2 if lvl == 2 else 1))]:
+            V(m_=mm)
+        for P in alter_pt(rng, cv, pp, False, pool)[:(None if lvl == 2 else 1)]:
+            V(pp_=P)
+        if k > 1:
+            V(ring_=ring[::-1])                     # the order of the elements does not matter: valid
+            V(ring_=ring[:-1])                      # one element removed
+            V(ring_=ring + [ring[0]])               # one element twice
+        V(ring_=[])
+        for i in (sorted({0, k - 1}) if lvl == 2 else [rng.below(k)]):
+            e = ring[i]
+            comps = list(range(2, 6)) if not link else list(range(2, 6)) + list(range(7, 11))
+            if lvl < 2:
+                comps = [rng.choice(comps[:4])] + ([rng.choice(comps[4:])] if link else [rng.choice(comps[:4])])
+            for j in comps:
+                for v in (alter_int(rng, n, e[j], heavy and j in (2, 5)) if lvl == 2 else alter_int(rng, n, e[j], False)[:1]):
+                    V(ring_=ring[:i] + [e[:j] + [v] + e[j + 1:]] + ring[i + 1:])
+            for j in (((0, 1) if not link else (0, 1, 6)) if lvl == 2 else [rng.choice([0, 1]), 6][:(2 if link else 1)]):
+                for P in alter_pt(rng, cv, e[j], heavy and j == 0, pool)[:(None if lvl == 2 else 1)]:
+                    V(ring_=ring[:i] + [e[:j] + [P] + e[j + 1:]] + ring[i + 1:])
+            # compensate an altered h in the trapdoor so that the sum still matches: only the proof of knowledge stands in the way
+            h2 = cv.add(e[0], cv.g)
+            V(td_=(td - 1) % n, ring_=ring[:i] + [[h2] + e[1:]] + ring[i + 1:])
+    return lines
+
+
+def gen_etrs(ctx, exe, cid, cv, scale, pool, lvl=2):
+    rng, n = ctx.rng, cv.n
+    pre = ["ep_param %d" % cid]
+    lines = []
+    combos = [(4, 0, 0), (4, 2, 0), (3, 1, 1)] if ctx.tier == "quick" else \
+        [(mx, ext, uni) for mx in (1, 2, 3, 4) for ext in range(0, mx + 1) for uni in (0, 1) if 1 + uni + ext <= 6]
+    if lvl < 2:
+        combos = [rng.choice(combos)]
+    rl, meta = [], []
+    for (mx, ext, uni) in combos * scale:
+        m = message(rng, rng.choice([0, 1, 32, 64, 120, 300]))
+        rl.append("etrs_run %s %s %d %d %d" % (seedhex(rng), bx(m), mx, ext, uni))
+        meta.append(m)
+    ro = ask(exe, pre, rl)
+    lines += rl
+    # a ring element built without any secret key of the ring: h = rG, proof of knowledge of log h
+    victim = cv.mul(cv.g, rnd_scalar(rng, n))
+    fm = b"forged"
+    fr = rnd_scalar(rng, n)
+    fh = cv.mul(cv.g, fr)
+    fl = ["sokor_sig %s %s %s %s - - %x 1" % (seedhex(rng), bx(fm), pt(fh), pt(victim), fr)]
+    fo = kv(ask(exe, pre, fl)[0])
+    lines += fl
+
+    def line(thres, m, pp, tds, ys, ring):
+        return "etrs_ver %d %s %s %d %s %s %d %s" % (thres, bx(m), pt(pp), len(tds), " ".join(hx(v) for v in tds), " ".join(hx(v) for v in ys), len(ring),
+                                                      " ".join(" ".join([hx(e[0]), pt(e[1]), pt(e[2])] + [hx(v) for v in e[3:7]]) for e in ring))
+    for idx, (m, o) in enumerate(zip(meta, ro)):
+        t = o.split()
+        if len(t) < 5 or not t[0].startswith("pp="):
+            continue
+        pp = parse_pt(t[0][3:])
+        thres, mx = int(t[1][6:]), int(t[2][4:])
+        tds = [int(x, 16) for x in t[3:3 + mx]]
+        ys = [int(x, 16) for x in t[3 + mx:3 + 2 * mx]]
+        size = int(t[3 + 2 * mx][5:])
+        ring = []
+        rt = t[4 + 2 * mx:]
+        for i in range(size):
+            e = rt[7 * i:7 * i + 7]
+            ring.append([int(e[0], 16), parse_pt(e[1]), parse_pt(e[2])] + [int(x, 16) for x in e[3:7]])
+        heavy = idx < scale and lvl == 2
+
+        def V(thres_=thres, m_=m, pp_=pp, tds_=tds, ys_=ys, ring_=ring):
+            if 0 <= thres_ <= len(ring_) and len(tds_) <= 4:
+                lines.append(line(thres_, m_, pp_, tds_, ys_, ring_))
+        V()
+        for th in range(0, size + 1):
+            if th != thres:
+                V(thres_=th)
+        for mm in mutate_msg(rng, m)[:(2 if lvl == 2 else 1)]:
+            V(m_=mm)
+        V(pp_=cv.add(pp, cv.g))
+        for i in (sorted({0, mx - 1}) if lvl == 2 else [rng.below(mx)]) if mx else []:
+            for v in alter_int(rng, n, tds[i], False)[:(None if lvl == 2 else 2)]:
+                V(tds_=tds[:i] + [v] + tds[i + 1:])
+            for v in alter_int(rng, n, ys[i], False)[:(None if lvl == 2 else 2)]:
+                V(ys_=ys[:i] + [v] + ys[i + 1:])
+        if mx > 1:
+            V(tds_=tds[::-1], ys_=ys[::-1])       # order of the trapdoor pairs: same set of points, valid
+            V(tds_=tds[1:], ys_=ys[1:])
+        for i in (sorted({0, size - 1}) if lvl == 2 else [rng.below(size)]):
+            e = ring[i]
+            for j in ((0, 3, 4, 5, 6) if lvl == 2 else (0, rng.choice([3, 4, 5, 6]))):
+                for v in (alter_int(rng, n, e[j], heavy and j in (0, 3)) if lvl == 2 else alter_int(rng, n, e[j], False)[:1]):
+                    V(ring_=ring[:i] + [e[:j] + [v] + e[j + 1:]] + ring[i + 1:])
+            for j in ((1, 2) if lvl == 2 else [rng.choice([1, 2])]):
+                for P in alter_pt(rng, cv, e[j], False, pool)[:(None if lvl == 2 else 1)]:
+                    V(ring_=ring[:i] + [e[:j] + [P] + e[j + 1:]] + ring[i + 1:])
+        if size > 1:
+            V(ring_=ring[::-1])
+            V(ring_=ring[:-1], thres_=min(thres, size - 1))
+        # forged: nothing but public values and one element made without a key of the ring
+        if "c0" in fo:
+            fe = [rnd_scalar(rng, n), fh, victim] + [int(fo[x], 16) for x in ("c0", "c1", "r0", "r1")]
+            V(thres_=1, m_=fm, ring_=[fe])
+            V(thres_=1, m_=fm, ring_=[fe], tds_=[rnd_scalar(rng, n) for _ in tds], ys_=[rnd_scalar(rng, n) for _ in ys])
+    return lines
+
 # -------------------------------------------------------------------------------------------------------------------------
 CVS = {}
 
@@ -489,6 +835,7 @@ def curve_info(exe, cid):
 
 
 def streams(ctx, scale=1):
+    QUICK[0] = ctx.tier == "quick"
     exe = _exe(ctx, "base")
     res = []
     for cid in CURVES:
@@ -501,6 +848,20 @@ def streams(ctx, scale=1):
         lines.append("ep_param %d" % cid)
         lines += gen_ec(ctx, exe, cid, cv, scale, others)
     res.append({"name": "ec-base", "cfg": "base", "exe": exe, "lines": lines})
+    lines = ["cfg"]
+    for ci, (cid, cv) in enumerate(CVS.items()):
+        pool = [c.g for i, c in CVS.items() if i != cid] + [cv.mul(cv.g, rnd_scalar(ctx.rng, cv.n)) for _ in range(3)]
+        lines.append("ep_param %d" % cid)
+
+        # quick tier: every scheme on every curve lightly, and fully on one curve (which one rotates with the seed)
+        def lvl(k):
+            return 2 if ctx.tier != "quick" or (ci + k + ctx.seed) % len(CVS) == 0 else 1
+        lines += gen_vbnn(ctx, exe, cid, cv, scale, pool, lvl(0))
+        lines += gen_sok(ctx, exe, cid, cv, scale, pool, lvl(1))
+        lines += gen_ers(ctx, exe, cid, cv, scale, pool, False, lvl(2))
+        lines += gen_ers(ctx, exe, cid, cv, scale, pool, True, lvl(3))
+        lines += gen_etrs(ctx, exe, cid, cv, scale, pool, lvl(4))
+    res.append({"name": "ec2-base", "cfg": "base", "exe": exe, "lines": lines})
     res.append({"name": "rsa-pss", "cfg": "base", "exe": exe, "lines": ["cfg"] + gen_rsa(ctx, exe, "pkcs2", scale)})
     return res
 
@@ -523,10 +884,47 @@ def _accepted(r):
     return r["got"].startswith("v=1")
 
 
+def _accepted_any(r):
+    return " v=1" in " " + r["got"]
+
+
+def _is_scalar(tok):
+    return "," not in tok and tok not in ("inf", "-", ".")
+
+
+SCALAR_POS = {   # positions (token indices) of the scalar components of each verification line
+    "vbnn_ver": lambda t: [2, 3], "pokdl_ver": lambda t: [1, 2], "sokdl_ver": lambda t: [1, 2],
+    "pokor_ver": lambda t: [1, 2, 3, 4], "sokor_ver": lambda t: [1, 2, 3, 4],
+    "ers_ver": lambda t: [1] + [5 + 6 * i + j for i in range(int(t[4])) for j in (2, 3, 4, 5)],
+    "smlers_ver": lambda t: [1] + [5 + 11 * i + j for i in range(int(t[4])) for j in (2, 3, 4, 5, 7, 8, 9, 10)],
+    "etrs_ver": lambda t: list(range(5, 5 + 2 * int(t[4]))) + [6 + 2 * int(t[4]) + 7 * i + j for i in range(int(t[5 + 2 * int(t[4])])) for j in (0, 3, 4, 5, 6)],
+}
+
+
+def _out_of_range(r):
+    t = r["line"].split()
+    if t[0] not in SCALAR_POS or not r.get("context"):
+        return False
+    cv = CVS.get(int(r["context"].split()[1]))
+    if cv is None:
+        return False
+    try:
+        vals = [int(t[i], 16) for i in SCALAR_POS[t[0]](t)]
+    except (ValueError, IndexError):
+        return False
+    return any(v < 0 or v >= cv.n for v in vals)
+
+
 def matches_finding(f, r):
     t = r["line"].split()
     pred = f.get("pred")
     op = t[0]
+    if pred == "vbnn_r_identity":
+        return op == "vbnn_ver" and t[1] == "inf" and r["got"].startswith("CRASH")
+    if pred == "scalar_range":
+        return op in SCALAR_POS and _accepted_any(r) and _out_of_range(r)
+    if pred == "etrs_unbound":
+        return op == "etrs_ver" and _accepted_any(r) and not _out_of_range(r)
     if pred == "ecdsa_identity_key":
         return op == "ecdsa_ver" and t[2] == "inf" and _accepted(r)
     if pred == "ecss_identity":
